@@ -598,6 +598,22 @@ class C32(C.Check):
 
     def replay(self, ctx, rp):
         _setup()
+        if rp.get("kind") == "no-failing-input-found":
+            # re-evaluate the disagreeing correspondence cases against the current source
+            try:
+                self.translate(ctx)
+            except C.TranslationError:
+                return True
+            ok, _ = C.coq_build(["C32/Exec.vo"])
+            if not ok:
+                return True
+            checks = []
+            for b in rp.get("broken", []):
+                c = (b.get("detail") or {}).get("case")
+                if b.get("kind") != "correspondence" or not isinstance(c, dict) or c.get("kind") not in ("lf", "hmc", "nuts"):
+                    return True          # a proof / translator break: only a full run can tell
+                checks += [t for _, t in self.checks_for(c, self.observe(c))]
+            return bool(C.eval_cases(self.prop, "replay%d" % os.getpid(), HEADER, checks)) if checks else True
         return direct_failure(rp["input"]) is not None
 
 
@@ -687,19 +703,24 @@ def _direct_hmc(c):
             return ("nan-energy-proposal" if math.isnan(Hy) else "inf-energy-proposal",
                     "proposal with energy %s is accepted with probability %g (target density there is 0)" % (Hy, pxy))
         return None
-    o2 = run_hmc_step(spec, imm, eps, y[0], y[1], n, c["seed"] + 1, maxd, eager=True)
-    back = (o2["aq"], o2["ap"]) if o2["acc"] else (o2["rq"], o2["rp"])
     scale = max(1.0, np.max(np.abs(x[0])), np.max(np.abs(x[1])), np.max(np.abs(y[0])), np.max(np.abs(y[1])))
-    if max(np.max(np.abs(back[0] - x[0])), np.max(np.abs(back[1] - x[1]))) > 1e-8 * scale:
-        return ("reversibility", "the proposal of the proposal is not the start (off by %.2e)" %
-                max(np.max(np.abs(back[0] - x[0])), np.max(np.abs(back[1] - x[1]))))
-    pyx = o2["prob"]
+
+    def proposal_from(q0, p0):
+        o2 = run_hmc_step(spec, imm, eps, q0, p0, n, c["seed"] + 1, maxd, eager=True)
+        return ((o2["aq"], o2["ap"]) if o2["acc"] else (o2["rq"], o2["rp"])), o2["prob"]
+
+    def dist(a, b):
+        return max(np.max(np.abs(a[0] - b[0])), np.max(np.abs(a[1] - b[1])))
+    # the proposal map must pair the states up: either it is an involution (x -> y -> x), or it is one
+    # up to the momentum flip under which the target is symmetric (x -> y, flip y -> flip x)
+    back, pyx = proposal_from(y[0], y[1])
+    if dist(back, x) > 1e-8 * scale:
+        back2, pyx = proposal_from(y[0], -y[1])
+        if dist(back2, (x[0], -x[1])) > 1e-8 * scale:
+            return ("reversibility", "the proposal started from the proposal (or its momentum flip) does not lead back to the start (off by %.2e)" % dist(back, x))
     piy = math.exp(-Hy)
     if abs(pix * pxy - piy * pyx) > 1e-9 * max(pix, piy):
         return ("detailed-balance", "pi(x)P(x->y) = %.12g but pi(y)P(y->x) = %.12g" % (pix * pxy, piy * pyx))
-    want = min(1.0, math.exp(Hx - Hy))
-    if abs(pxy - want) > 1e-9:
-        return ("accept-rule", "transition probability %.12g, expected min(1, exp(-dH)) = %.12g" % (pxy, want))
     if math.isfinite(maxd) and abs(abs(Hx - Hy) - maxd) > 1e-9 and o["div"] != (abs(Hx - Hy) > maxd):
         return ("diverging-flag", "diverging=%s for |dH| = %g, limit %g" % (o["div"], abs(Hx - Hy), maxd))
     return None
